@@ -26,7 +26,7 @@ RULE_COMPUTE = ("cases = seeded structured arrays (1-4 dims, <=48/80 pixels; val
                 "nested/chain/checker/random; NaN holes; int8..uint32/float32/float64; thresholds at/between data "
                 "values; min_delta at exact differences; min_npix; user criteria; periodic / diagonal adjacency), "
                 "each run through the real Dendrogram.compute and the Lean model on the recorded pixel order; "
-                "non-trivial = the result has a branch, >=2 trunk structures or an unassigned pixel; distinct = "
+                "non-trivial = the run contained a meeting of >= 2 structures (rule counts measured by the model: nonekept / onekept / branch); distinct = "
                 "distinct (shape, values, parameters, adjacency, dtype)")
 
 ASSUME_COMPUTE = [
